@@ -146,6 +146,12 @@ def verify_function(reg, sources, key, canary=True):
                 entry_memo["pre"] = calls.eval_spec_bool(ex, ctx, st, (c.source_scope, c.requires), args,
                                                          arg_types=calls.contract_types(ex, c))
             ctx.assume(entry_memo["pre"], f"requires:{key}")
+        if case == "*":
+            # exhaustiveness of the case split: under the precondition some case applies
+            alts = [calls.eval_spec_bool(ex, ctx, st, (c.source_scope, node), args, arg_types=calls.contract_types(ex, c))
+                    for _, node in sorted(c.cases.items())]
+            ctx.oblige(f"{qual}#cases-exhaustive", z3.Or(*alts), {"kind": "case-split-exhaustive"})
+            return st, "return", NONE
         if case is not None:
             cs = calls.eval_spec_bool(ex, ctx, st, (c.source_scope, c.cases[case]), args,
                                       arg_types=calls.contract_types(ex, c))
